@@ -208,7 +208,7 @@ PROPS = {
         "assumptions": ["the primary container has an explicit command (otherwise the webhook asks the image registry)", "ownership graphs are acyclic (the API server guarantees it via UIDs)"],
     },
     "C14": {
-        "prop_files": ["Katib/Props/C14.lean"],
+        "prop_files": ["Katib/Props/C14.lean", "Katib/Props/C14Template.lean"],
         "n": {"quick": 6000, "thorough": 300000},
         "rule": "generated Experiments before defaulting (names incl. dots, upper case, trailing hyphen/newline, 40/41 characters; budgets nil/-1..6; objective, algorithm, early stopping, "
                 "resume policy valid/invalid/nil; 0-3 parameters of every type with valid, empty, mixed and duplicated spaces and names; NAS config; inline Job/TFJob/CRD templates and "
@@ -221,9 +221,11 @@ PROPS = {
         "modelled": ["Experiment.SetDefault (parallel count, resume policy, template conditions, collector sources, distributions) and DefaultValidator.ValidateExperiment for creation "
                      "(all validate* helpers; nil dereferences as the outcome crash) as Katib.Adm.*; name rules on character lists; applyParameters through Katib.Tpl.placeholders"],
         "level_text": "partial: Lean theorems C14_no_crash (validation of a defaulted Experiment never dereferences nil, any content, any engine answers), C14_pointers, C14_budget, C14_names, "
-                      "C14_trial_names for every Experiment / name; C14_algorithm_name_counterexample and the instantiate-battery oracle witness four known findings; exact differential run "
+                      "C14_trial_names for every Experiment / name; C14_template_partial (admitted + every parameter consumed + every metadata reference resolvable => for every assignment of "
+                      "values the generator's placeholder map is built without error: links the admission model to the C02 generator model); C14_algorithm_name_counterexample and the "
+                      "instantiate-battery oracle witness four known findings; exact differential run "
                       "of the real webhooks (error paths in order) against the model",
-        "level_note": "partial: 'the template instantiates for every feasible assignment' is decided per case by running the real generator (oracle), not by a theorem; objective metric "
+        "level_note": "partial: that the substituted template text parses (JSON/YAML engine) is decided per case by running the real generator (oracle), not by a theorem; objective metric "
                       "strategies and NAS operations are not modelled; updates (oldInst) are C15",
         "assumptions": ["Go's regexp `$` matches only at the end of the text (checked by the name stream)"],
     },
